@@ -82,6 +82,9 @@ def check(repo: Repo, R) -> None:
     from . import c08
     c08.check(repo, shared_retag(R, lambda r: "C02.7-failed-visit-never-revisited" if r.startswith("C08.3") else None,
                                  "after a checking or rewriting pass failed on an ill-formed module, a later call re-visits the half-rewritten module (the fault has been popped away) and returns a package for it"))
+    from . import c18 as _c18
+    _c18.check(repo, shared_retag(R, lambda r: "C02.8-displaced-attribute-disowned" if r.startswith("C18.1") else None,
+                                  "an object displaced by re-using its name keeps its owner and its place in a per-kind container: the ownership check accepts it and the package declares two objects of one name"))
     dead_guards(repo, R, "C02.6-no-dead-guards", [("_elaborated", "Module", F_MODULE), ("_pre_flattening_io", "Module", F_MODULE)])
     R.floor("C02.1-live-checking-passes", 2)
     R.floor("C02.3-dispatch-complete", 4)
@@ -142,6 +145,21 @@ def live_passes(repo: Repo, R):
         R.check(bool(later), rule2, key_of(fi, checker), fi.site,
                 f"rewriting passes {[(i, n) for i, n, _ in rewriting]}; a live {checker} pass runs after the last of them: {bool(later)}",
                 why=f"connections created by flattening (array slices, flattened bundle members, resolved references) are never checked by {checker}")
+    # order among the rewriting passes: each consumes what its predecessor produces (confirmed by reading the passes)
+    ORDER = [
+        ("InstBundleElabPass", "ResolvePortRefs", "instance bundles hand out port references and no-connects of their own; scalarising them after reference resolution gives the p/n members one shared net"),
+        ("ResolvePortRefs", "ConnTypes", "connection types are checked on resolved connections"),
+        ("ResolvePortRefs", "BundleFlattener", "bundle flattening follows resolved references only"),
+        ("BundleFlattener", "ArrayFlattener", "arrays are distributed over flattened (scalar) ports"),
+        ("ArrayFlattener", "SliceResolver", "the slice resolver refuses modules that still have arrays"),
+    ]
+    pos = {}
+    for i, (e, c) in enumerate(entries):
+        pos.setdefault(c.name, i)
+    for a, b, reason in ORDER:
+        ok_ = a in pos and b in pos and pos[a] < pos[b]
+        R.check(ok_, rule2, key_of(fi, f"{a}<{b}"), fi.site, f"{a} (position {pos.get(a)}) runs before {b} (position {pos.get(b)}): {reason}",
+                why="passes run in an order in which one of them meets constructs its predecessor was to remove: connections are merged or left unresolved")
     # MarkModules last
     lastc = entries[-1][1]
     R.check(lastc.name == "MarkModules", rule2, key_of(fi, "mark-last"), fi.site,
@@ -153,7 +171,11 @@ def live_passes(repo: Repo, R):
             why="a foreign signal/instance is flattened and copied into the module before its ownership is checked")
     # Elaborator.elaborate runs each pass in list order over all tops
     fe = repo.func(F_ELAB, "Elaborator.elaborate")
-    loop_ok = any(isinstance(n, ast.For) and ast.unparse(n.iter) == "self.passes" and not any(isinstance(x, (ast.Break, ast.Continue)) for x in ast.walk(n)) for n in au.walk_no_nested(fe.node))
+    from .shared import path_conditions as _pc, returns_of as _rets, precedes as _prec
+
+    loops_ = [n for n in au.walk_no_nested(fe.node) if isinstance(n, ast.For) and ast.unparse(n.iter) == "self.passes"]
+    # every call runs every pass: the loop is unconditional, nothing leaves it early, and no return comes before it
+    loop_ok = len(loops_) == 1 and not any(isinstance(x, (ast.Break, ast.Continue, ast.Return)) for x in ast.walk(loops_[0])) and not _pc(fe.node, loops_[0]) and not any(_prec(fe.node, r, loops_[0]) for r in _rets(fe.node))
     R.check(loop_ok, rule2, key_of(fe), fe.site, f"Elaborator.elaborate runs every pass of the list, in order: {loop_ok}", why="passes are skipped")
 
 
@@ -182,6 +204,11 @@ def dispatch_completeness(repo: Repo, R, noret):
                 txt = ast.unparse(ast.Module(n.body, []))
                 ok = "check_connectable" in txt and attr in txt
         rec[kind] = ok
+    # ... and into every one of them: the loops over parts / members run to completion
+    for lp_ in [n for n in au.walk_no_nested(fi.node) if isinstance(n, ast.For)]:
+        early = [x for x in ast.walk(lp_) if isinstance(x, (ast.Return, ast.Break, ast.Continue))]
+        if early:
+            rec["<loop over " + ast.unparse(lp_.iter) + " complete>"] = False
     R.check(all(rec.values()), rule, key_of(fi, "recursion"), fi.site,
             f"ownership check recurses into slice parents, concat parts and anonymous-bundle members: {rec}",
             why="a foreign signal hidden inside a slice, concat or anonymous bundle passes the ownership check")
